@@ -327,4 +327,91 @@ with 2.0 from stack 1; `3.0` exists for the other flavor only -/
 example : lookupEntry exCtx (exReq (some [62, 61, 32, 50, 46, 48]) 1) kVersionExpr [sCurrent]
     = .ok (.hit ⟨v20, sLinux, 1⟩ kVersionExpr) := by decide
 
+/-! ## the flavor loop -/
+
+/-- The flavor loop answers with a native-flavor declaration when one resolves: if the VRO walk for
+the native flavor yields a product (one that the top level accepts: no other version than an
+explicitly named one), that product is the answer, and it is of the native flavor — the fallback
+flavors are not consulted. -/
+theorem C03_native_flavor_first (C : Ctx) (r : Req) (keep : Bool) (vro : List Str) (native : Str)
+    (rest : List Str) (h : Hit) (hr : r.already = none)
+    (hf : find C { r with flavor := native } vro = .ok (some h))
+    (hacc : acceptableB r h = .ok true) :
+    resolve C r keep vro (native :: rest) = .ok (some h) ∧ h.prod.flavor = native := by
+  have hr' : ({ r with flavor := native } : Req).already = none := hr
+  have hacc' : acceptableB { r with flavor := native } h = .ok true := hacc
+  constructor
+  · unfold resolve
+    rw [resolveFlavor_of_find_some hf hacc']
+  · rw [find_eq_walk vro hr'] at hf
+    exact walk_flavor hr' hf
+
+/-- ... and with the fallback declaration otherwise: when nothing resolves for the native flavor the
+answer is that of the remaining flavors, in their order. -/
+theorem C03_fallback_when_native_absent (C : Ctx) (r : Req) (keep : Bool) (vro : List Str) (native : Str)
+    (rest : List Str) (hr : r.already = none)
+    (hf : find C { r with flavor := native } vro = .ok none) :
+    resolve C r keep vro (native :: rest) = resolve C r keep vro rest := by
+  have hr' : ({ r with flavor := native } : Req).already = none := hr
+  conv => lhs; unfold resolve
+  rw [resolveFlavor_of_find_none hr' hf]
+
+/-- the recursion of the flavor loop never runs out of the fuel `resolve` gives it (so `outOfFuel`
+is never the model's answer) -/
+theorem C03_resolve_fuel_enough (C : Ctx) (r : Req) (keep : Bool) (vro : List Str) (flavors : List Str) :
+    resolve C r keep vro flavors ≠ .error .outOfFuel := by
+  induction flavors with
+  | nil => simp [resolve]
+  | cons fl rest ih =>
+    unfold resolve
+    split
+    · rename_i e he
+      intro hc; cases hc
+      exact resolveFlavor_fuel C _ keep _ vro (Nat.lt_succ_self _) he
+    · simp
+    · exact ih
+
+/-- non-vacuity: `p >= 2.0`: 2.0 (Linux, stack 1) wins over 3.0 (generic);
+`p >= 3.0`: nothing for Linux, the generic 3.0 is used -/
+example : resolve exCtx (exReq (some [62, 61, 32, 50, 46, 48]) 0) false defaultVro [sLinux, sGeneric]
+    = .ok (some ⟨⟨v20, sLinux, 1⟩, kVersionExpr, kVersionExpr⟩) := by decide
+example : resolve exCtx (exReq (some [62, 61, 32, 51, 46, 48]) 0) false defaultVro [sLinux, sGeneric]
+    = .ok (some ⟨⟨v30, sGeneric, 1⟩, kVersionExpr, kVersionExpr⟩) := by decide
+
+/-! ## through the cache (D16) -/
+
+/-- Through the cache of a process that rebuilt every stack it reads — or for a request in the native
+flavor, whatever was accepted — `findProductFromVRO` gives the answer it gives through the files.
+(`Mode.mixed`, i.e. `noCache=True` on an instance with loaded caches, included.) -/
+theorem C03_fallback_via_cache_partial (o : Ord) (tags : List Str) (db : Db) (native : Str)
+    (accepted : List Bool) (r : Req) (vro : List Str) (m : Mode)
+    (hyp : (∀ b ∈ accepted, b = false) ∨ r.flavor = native) :
+    find (mkCtx o tags db m native accepted) r vro = find (mkCtx o tags db .files native accepted) r vro := by
+  rcases hyp with h | h
+  · have := cacheView_all_rebuilt native accepted db h
+    cases m <;> simp [mkCtx, this]
+  · have hv : ViewsAgree r.flavor (cacheView native accepted db) db := by
+      rw [h]; exact cacheView_agree_native native accepted db
+    cases m
+    · rfl
+    · exact find_view_congr (C := mkCtx o tags db .cache native accepted)
+        (C' := mkCtx o tags db .files native accepted) rfl rfl hv hv vro
+    · exact find_view_congr (C := mkCtx o tags db .mixed native accepted)
+        (C' := mkCtx o tags db .files native accepted) rfl rfl (viewsAgree_refl _ _) hv vro
+
+/-- Without that hypothesis the clause is false of the code (D16): `p 3.0` is declared for the
+fallback flavor only; a fresh process that accepts the native-flavor cache of the stack does not see
+it, the files do. -/
+theorem C03_fallback_via_cache_witness :
+    let db : Db := [{ decls := [⟨sP, v20, sLinux⟩, ⟨sP, v30, sGeneric⟩], tags := [⟨sCurrent, sP, sGeneric, v30⟩] }]
+    let r : Req := { exReq none 0 with flavor := sGeneric }
+    find (mkCtx simpleOrd [sCurrent] db .cache sLinux [true]) r defaultVro = .ok none ∧
+    find (mkCtx simpleOrd [sCurrent] db .files sLinux [true]) r defaultVro
+      = .ok (some ⟨⟨v30, sGeneric, 0⟩, sCurrent, sCurrent⟩) ∧
+    resolve (mkCtx simpleOrd [sCurrent] db .cache sLinux [true]) { exReq (some v30) 0 with } false defaultVro
+      [sLinux, sGeneric] = .ok none ∧
+    resolve (mkCtx simpleOrd [sCurrent] db .files sLinux [true]) { exReq (some v30) 0 with } false defaultVro
+      [sLinux, sGeneric] = .ok (some ⟨⟨v30, sGeneric, 0⟩, kCommandLine, kVersion⟩) := by
+  decide
+
 end EupsModel.C03
